@@ -28,6 +28,28 @@ def replay_history(mod, data, detail0):
     return False, str(detail0) + f" | not reproduced after replaying {len(inp['_history'])} preceding operations either"
 
 
+def replay_raised(mod, data, with_history=False):
+    """the library raised on a ground instance: re-execute the instance (after the worker's history if asked) and see
+    whether the library raises the same exception again"""
+    from . import core
+
+    inp = data["inputs"]
+    os.environ["VERIF_PROCS"] = "1"
+    if with_history:
+        for it in inp.get("_history", []):
+            try:
+                mod.work(it)
+            except Exception:
+                pass
+    try:
+        mod.work(inp["_item"])
+    except Exception as e:
+        if type(e).__name__ == inp["_raised"] and core.exception_origin(e) == "library":
+            return True, f"the library raised {type(e).__name__}: {str(e)[:200]}"
+        return False, f"raised {type(e).__name__} instead"
+    return False, "no exception on re-execution"
+
+
 def main():
     ap = argparse.ArgumentParser()
     ap.add_argument("pid")
@@ -44,6 +66,10 @@ def main():
     mod = importlib.import_module(f"vf.props.{pid.lower()}")
     if args.replay:
         data = json.load(open(args.replay))
+        if (data.get("inputs") or {}).get("_raised"):
+            ok, detail = replay_raised(mod, data, with_history=args.history)
+            print(("REPRODUCED " if ok else "NOT-REPRODUCED ") + str(detail)[:1500])
+            sys.exit(core.REPRODUCED if ok else core.NOT_REPRODUCED)
         ok, detail = (False, "history mode") if args.history else mod.replay(data)
         hist = (data.get("inputs") or {}).get("_history")
         if not ok and hist is not None and (args.history or hist):
